@@ -25,9 +25,7 @@ const rule = "case = generated production-mode genesis + 10-60 blocks (quick) fr
 	"yields a non-zero code for itself; a Byzantine block is accepted by all replicas or rejected by all; (c) the returned validator updates satisfy the consensus engine's contract. The documented precondition (no validator can be elected) is recognised by " +
 	"its error text and counted as a discard. non-trivial = a block in which >=2 of {epoch transition, evidence, vote absence, failing transaction with extreme amount or garbage} coincide; distinct = hash of spec and block hashes"
 
-func preconditionLost(msg string) bool {
-	return strings.Contains(msg, "failed to elect any validators") || strings.Contains(msg, "insufficient validators") || strings.Contains(msg, "couldn't elect validators")
-}
+func preconditionLost(msg string) bool { return chain.PreconditionLost(msg) }
 
 func TestC10NoHalt(t *testing.T) {
 	rec := ev.New("C10", "TestC10NoHalt", rule,
